@@ -606,6 +606,9 @@ struct CapSide {
     gr: Option<(u8, Vec<usize>)>,
     llgr: Option<Vec<(usize, u32)>>,
     unknown: bool,
+    /// an ADD-PATH tuple for family 1 although that family has no Multiprotocol capability in this
+    /// OPEN (RFC 7911 3: to be ignored; it must not put the family in force)
+    ap_orphan: bool,
     /// order of the capabilities in the OPEN (RFC 5492: any order, repeats allowed):
     /// 0 = MP first, 1 = reversed (ADD-PATH precedes the MP capabilities), 2 = MP capabilities repeated at the end
     order: u8,
@@ -626,6 +629,9 @@ fn caps_of(s: &CapSide, asn: u32) -> Vec<packet::Capability> {
     }
     if let Some(m) = s.dup {
         ap.push((CF[0], m));
+    }
+    if s.ap_orphan && s.fam[1].is_none() {
+        ap.push((CF[1], 3));
     }
     if !ap.is_empty() {
         v.push(packet::Capability::AddPath(ap));
@@ -679,7 +685,10 @@ fn sides(thorough: bool) -> Vec<CapSide> {
                         // the order variants matter where a per-family capability (ADD-PATH) accompanies MP
                         let orders: &[u8] = if matches!(f0, Some(Some(_))) || matches!(f1, Some(Some(_))) { &[0, 1, 2] } else { &[0] };
                         for &order in orders {
-                            out.push(CapSide { fam: [f0.clone(), f1.clone()], dup, as4, extmsg, gr: gr.clone(), llgr: None, unknown, order });
+                            out.push(CapSide { fam: [f0.clone(), f1.clone()], dup, as4, extmsg, gr: gr.clone(), llgr: None, unknown, ap_orphan: false, order });
+                        }
+                        if f1.is_none() && dup.is_none() && as4 && !unknown {
+                            out.push(CapSide { fam: [f0.clone(), f1.clone()], dup, as4, extmsg, gr: gr.clone(), llgr: None, unknown, ap_orphan: true, order: 0 });
                         }
                     }
                 }
@@ -695,7 +704,7 @@ fn gr_sides(thorough: bool) -> Vec<CapSide> {
     let mut out = Vec::new();
     for gr in &grs {
         for llgr in &llgrs {
-            out.push(CapSide { fam: [Some(None), Some(None)], dup: None, as4: true, extmsg: true, gr: gr.clone(), llgr: llgr.clone(), unknown: false, order: 0 });
+            out.push(CapSide { fam: [Some(None), Some(None)], dup: None, as4: true, extmsg: true, gr: gr.clone(), llgr: llgr.clone(), unknown: false, ap_orphan: false, order: 0 });
         }
     }
     out
@@ -943,7 +952,7 @@ pub(crate) fn run(replay: Option<&str>) -> Report {
     }
     let thorough = rep.thorough();
     let depth = if thorough { 12 } else { 6 };
-    rep.rule = format!("(i) explicit-state BFS depth {depth} over connect(passive|active, static|in-dynamic-prefix|other address) / disconnect / enable / disable / delete against the real accept_connection + session tasks on loopback (4 configurations: static only with prefix limit; admin-down static + route-server dynamic group with GR and hold time; overlapping dynamic prefixes + RR client group + confederation; iBGP static neighbour + RR-client group inside a confederation whose member list names the local member AS); admission verdict, no bytes before refusal, role / hold time / local AS / capabilities / limits of the session as seen in its OPEN, Global.peers and connection slots after every step; (ii) all pairs of capability lists from a {} -element menu (per-family absent / MP / add-path modes incl. invalid 4, conflicting duplicate add-path entries, three capability orders incl. ADD-PATH before MP and repeated MP, AS4, extended message, GR flag/family lists, LLGR lists, unknown capability) through encode->decode and PeerCodec::negotiate in both directions, PeerFsm effective send-max, PeerSession::negotiate_gr/llgr (codec/FSM lists and GR/LLGR lists as two independent complete products); non-trivial = distinct canonical state / distinct pair", sides(thorough).len() + gr_sides(thorough).len());
+    rep.rule = format!("(i) explicit-state BFS depth {depth} over connect(passive|active, static|in-dynamic-prefix|other address) / disconnect / enable / disable / delete against the real accept_connection + session tasks on loopback (4 configurations: static only with prefix limit; admin-down static + route-server dynamic group with GR and hold time; overlapping dynamic prefixes + RR client group + confederation; iBGP static neighbour + RR-client group inside a confederation whose member list names the local member AS); admission verdict, no bytes before refusal, role / hold time / local AS / capabilities / limits of the session as seen in its OPEN, Global.peers and connection slots after every step; (ii) all pairs of capability lists from a {} -element menu (per-family absent / MP / add-path modes incl. invalid 4, conflicting duplicate add-path entries, an add-path entry for a family without Multiprotocol capability, three capability orders incl. ADD-PATH before MP and repeated MP, AS4, extended message, GR flag/family lists, LLGR lists, unknown capability) through encode->decode and PeerCodec::negotiate in both directions, PeerFsm effective send-max, PeerSession::negotiate_gr/llgr (codec/FSM lists and GR/LLGR lists as two independent complete products); non-trivial = distinct canonical state / distinct pair", sides(thorough).len() + gr_sides(thorough).len());
     for m in &ms {
         let cfg = BfsCfg { max_depth: depth, max_secs: if thorough { 1200 } else { 20 }, ..Default::default() };
         bfs::bfs(m, &cfg, &mut rep);
